@@ -183,6 +183,9 @@ type c08Present struct{}
 
 var c08PresentT = reflect.TypeOf(c08Present{})
 
+// c08LongLens: element counts of the long scalar slices (thorough adds 2048: 16 KiB of eight-byte elements)
+var c08LongLens = []int{15, 16, 17, 127, 128}
+
 func c08Boundary(t reflect.Type) []reflect.Value {
 	var vs []reflect.Value
 	if t == c08PresentT {
@@ -225,12 +228,13 @@ func c08Boundary(t reflect.Type) []reflect.Value {
 			add(x)
 		}
 	case reflect.String:
-		for _, x := range []string{"a", "é \"\\<>&\u2028", "\x00", strings.Repeat("x", 300), "12", " "} {
+		for _, x := range []string{"a", "é \"\\<>&\u2028", "\x00", strings.Repeat("x", 300), "12", " ", strings.Repeat("y", 127), strings.Repeat("y", 128)} {
 			add(x)
 		}
 	case reflect.Slice:
 		if t.Elem().Kind() == reflect.Uint8 {
-			vs = append(vs, reflect.ValueOf([]byte{}).Convert(t), reflect.ValueOf([]byte{0, 255, 1}).Convert(t), reflect.ValueOf([]byte("<html>&")).Convert(t))
+			vs = append(vs, reflect.ValueOf([]byte{}).Convert(t), reflect.ValueOf([]byte{0, 255, 1}).Convert(t), reflect.ValueOf([]byte("<html>&")).Convert(t),
+				reflect.ValueOf(bytes.Repeat([]byte{7}, 127)).Convert(t), reflect.ValueOf(bytes.Repeat([]byte{7}, 128)).Convert(t))
 		} else {
 			vs = append(vs, reflect.MakeSlice(t, 0, 0)) // present but empty
 			if k := t.Elem().Kind(); k == reflect.Ptr || k == reflect.Struct {
@@ -245,6 +249,17 @@ func c08Boundary(t reflect.Type) []reflect.Value {
 					s := reflect.MakeSlice(t, 2, 2)
 					s.Index(1).Set(b)
 					vs = append(vs, s)
+				}
+				// lengths around the points where the length prefix of the (packed) encoding grows by a byte: 127/128 bytes
+				// is 16 eight-byte elements or 127/128 one-byte elements
+				if eb := c08Boundary(t.Elem()); len(eb) > 0 && k != reflect.String {
+					for _, n := range c08LongLens {
+						s := reflect.MakeSlice(t, n, n)
+						for i := 0; i < n; i++ {
+							s.Index(i).Set(eb[0])
+						}
+						vs = append(vs, s)
+					}
 				}
 			} else if k == reflect.Ptr {
 				s := reflect.MakeSlice(t, 2, 2) // two default elements
